@@ -757,7 +757,7 @@ func readAllBounded(r io.Reader) ([]byte, error) {
 // stream must decode to its own payload.
 func stress(r *rand.Rand, cs []codecCase, G, iters int) {
 	// wall-clock budget per codec value: on a loaded machine fewer iterations are run instead of timing out
-	const budget = 3 * time.Second
+	const budget = 2 * time.Second
 	for _, cc := range cs {
 		ps := make([][]byte, 4)
 		streams := make([][]byte, 4)
@@ -843,7 +843,15 @@ func main() {
 
 	for round := 0; round < rounds; round++ {
 		if stressOnly {
-			stress(r, cs, 32, 120)
+			// the race build: the non-default snappy levels share the pools of the default one and differ only in the
+			// block encoder installed after Get: not repeated here
+			var raceCs []codecCase
+			for _, cc := range baseCodecs() {
+				if !strings.Contains(cc.name, "better") {
+					raceCs = append(raceCs, cc)
+				}
+			}
+			stress(r, raceCs, 32, 120)
 			continue
 		}
 		// --- xw: writer block structure
